@@ -557,6 +557,38 @@ func stringLess(rsi, rsj string, desc bool) int {
 	return b
 }
 
+// numberLess compares numerically two literals if both are int64 or both are
+// float64. It returns false otherwise.
+func numberLess(li, lj *literal.Literal, desc bool) (int, bool) {
+	b := 0
+	switch {
+	case li.Type() == literal.Int64 && lj.Type() == literal.Int64:
+		vi, _ := li.Int64()
+		vj, _ := lj.Int64()
+		if vi < vj {
+			b = -1
+		}
+		if vi > vj {
+			b = 1
+		}
+	case li.Type() == literal.Float64 && lj.Type() == literal.Float64:
+		vi, _ := li.Float64()
+		vj, _ := lj.Float64()
+		if vi < vj {
+			b = -1
+		}
+		if vi > vj {
+			b = 1
+		}
+	default:
+		return 0, false
+	}
+	if desc {
+		b *= -1
+	}
+	return b, true
+}
+
 // CellString create a pointer for the provided string.
 func CellString(s string) *string {
 	return &s
@@ -596,6 +628,25 @@ func rowLess(ri, rj Row, c SortConfig) bool {
 		si, sj = ci.T.Format(time.RFC3339Nano), cj.T.Format(time.RFC3339Nano)
 	}
 	l := stringLess(si, sj, cfg.Desc)
+	if ci.L != nil && cj.L != nil {
+		// Numbers are compared numerically. The comparable strings do not order negative numbers.
+		if n, ok := numberLess(ci.L, cj.L, cfg.Desc); ok {
+			l = n
+		}
+	}
+	if ci.T != nil && cj.T != nil {
+		// Time anchors are compared as instants. Their text depends on the time zone and the precision.
+		l = 0
+		if ci.T.Before(*cj.T) {
+			l = -1
+		}
+		if ci.T.After(*cj.T) {
+			l = 1
+		}
+		if cfg.Desc {
+			l *= -1
+		}
+	}
 	if l < 0 {
 		return true
 	}
